@@ -31,6 +31,7 @@ STRUCT_TAIL = {
     "as_chunks", "peekable", "filter", "step_by", "drain", "remove", "swap_remove", "take_while", "skip_while", "nth",
     "unzip", "collect", "map", "to_owned", "from_residual", "poll", "into_future", "new_unchecked", "get_context", "try_join_all",
     "try_join", "from_iter", "lock", "into_iter_sorted", "lift", "get_or_insert", "get_or_insert_with", "new",
+    "and_then", "as_deref", "as_deref_mut", "inspect", "then_some", "ok_or_else", "find", "filter_map", "chain",
 }
 STRUCT_KINDS = {"copy", "ref", "base2field", "field2whole", "upvar", "callarg", "ret", "closarg", "closret", "future", "cast", "agg", "index"}
 
@@ -91,6 +92,7 @@ class Sec:
         self.comp_by_site = {}
         self._components()
         self._checks = None
+        self._ctrl_bool_nodes = set()
         self._loops = {}
         self._cdeps = {}
 
@@ -242,7 +244,7 @@ class Sec:
                         c.ing.add("LABEL")
                 for n in c.comp:
                     ty = self.node_ty(n)
-                    if ty in ("bool", "&bool"):
+                    if ty in ("bool", "&bool") or (n in c.ctrl_bits and n in self._ctrl_bool_nodes):
                         c.ing.add("PEER_BIT")
                         c.ing.add("BIT_BOUND")
                     if T_MAC in ty or ty in ("u128", "&u128"):
@@ -324,4 +326,11 @@ class Sec:
                 for n in bs:
                     if n in all_comp and self.node_ty(n) in ("bool", "&bool"):
                         out.add(n)
+                # a pattern on the bool inside a received tuple (`Some((true, label)) if ..`): the switch reads the
+                # projected place directly
+                if t["o"]["p"].get("ty") == "bool" and t["o"]["p"]["pr"]:
+                    for n in fg.operand_nodes(bk, t["o"]):
+                        if n in all_comp:
+                            out.add(n)
+                            self._ctrl_bool_nodes.add(n)
         return out
